@@ -113,6 +113,22 @@ def ecdsaFromTranscript (pub : ECPoint) (thetas : List Nat) (gammas : List ECPoi
       | .err e => .err e
       | .panic e => .panic e
 
+/-- `bigWs[j]` of `PrepareForSigning`: `X_j` multiplied, one factor after the other, by the Lagrange factors
+`k_c / (k_c − k_j)` of the other signers (each product goes through `ECPoint.ScalarMult`) -/
+def bigW (ks : List Nat) (j : Nat) (xj : ECPoint) : Outcome ECPoint :=
+  (List.range ks.length).foldlM (fun w c =>
+    if c = j then .ok w else
+      match coef C.q (ks.getD j 0) (ks.getD c 0) with
+      | some io => C.ecScalarMult w io
+      | none => .panic "nil-mod-inverse") xj
+
+/-- all the public weighted points -/
+def bigWs (ks : List Nat) (xs : List ECPoint) : Outcome (List ECPoint) :=
+  (List.range ks.length).mapM fun j =>
+    match xs[j]? with
+    | some x => bigW C ks j x
+    | none => .panic "len(ks) != len(bigXs)"
+
 end Ecdsa
 
 /-! ### Ed25519 (RFC 8032) -/
